@@ -247,8 +247,11 @@ def strategy_class():
 
     for name in ("initialize", "before_bar", "on_bar", "after_bar", "notify", "finalize"):
         setattr(TraceStrategy, name, _mk_hook(name, TraceStrategy.__dict__[name]))
-    _strategy_cls = TraceStrategy
-    return TraceStrategy
+    class TraceStrategyMember(TraceStrategy):
+        """a member of a strategy family: every hook is inherited from the intermediate class"""
+
+    _strategy_cls = (TraceStrategy, TraceStrategyMember)
+    return _strategy_cls
 
 
 def install(markets, trigger_classes):
@@ -756,7 +759,7 @@ class Case:
 
         mon, w = self.mon, self.w
         install(w.markets, [bar_trigger_class(), AtTimeTrigger])
-        strat = strategy_class()(self)
+        strat = strategy_class()[self.rng.random() < 0.5](self)  # hooks defined in its own class / inherited from a base
         rec = Rec()
         rec.fingerprints = {m.market_info.name: w.fp_get[m.market_info.name] for m in w.markets if m.market_info.name in w.fp_get}
         tag = f"{w.mix}/{w.interval}"
